@@ -73,4 +73,74 @@ def genReattach (c r : Nat) (p : NicName) : NetM Unit := do
   | some pi => genReattachProxyPart c r tn pi
   | none => pure ()
 
+/-- `<netconfig n>.can_add_interface(<interface i>)` (genCanAdd on the current objects) -/
+def canAddM (n i : Nat) : NetM Bool := fun s =>
+  match genCanAdd (s.nc n) i (s.iface i) with | .error e => .error e | .ok b => .ok (b, s)
+/-- `self.new_netconfig()`: a new netconfig object (the next id), nothing set yet -/
+def newNetconfig : NetM Nat := fun s =>
+  .ok (s.nNc, { s with nNc := s.nNc + 1, nc := fun m => if m = s.nNc then default else s.nc m })
+/-- `<netconfig n>.from_interface(<interface i>)` (the hand model's `fromInterface`: every attribute is set) -/
+def fromInterfaceM (n i : Nat) : NetM Unit := fun s => .ok ((), s.setNc n (fun _ => fromInterface (s.iface i)))
+/-- `self.netconfigs[<netconfig n>.net_ip] = <netconfig n>` -/
+def registerNc (n : Nat) : NetM Unit := fun s => .ok ((), { s with reg := aset (s.nc n).netIp n s.reg })
+/-- `self.netconfigs.values()` when the loop starts -/
+def registered : NetM (List (Nat × Nat)) := fun s => .ok (s.reg, s)
+
+/-- `VMNetwork.integrate_node` of avocado_i2n/vmnet/network.py, cut by harness/pygen_pxnet.py: the test of `for netconfig in self.netconfigs.values(): if <test>:`; `n` = netconfig, `i` = interface -/
+def genIntegrateTest (n : Nat) (i : Nat) : NetM (Bool) := do
+  return (← canAddM n i)
+
+/- the Python it was generated from (comments and docstring dropped):
+   def integrate_node_test():
+       return netconfig.can_add_interface(interface)
+-/
+
+/-- `VMNetwork.integrate_node` of avocado_i2n/vmnet/network.py, cut by harness/pygen_pxnet.py: the statements of the `if` in front of its `break` -/
+def genIntegrateFound (n : Nat) (i : Nat) : NetM (Unit) := do
+  genAddInterface n i
+  return ()
+
+/- the Python it was generated from (comments and docstring dropped):
+   def integrate_node_found():
+       netconfig.add_interface(interface)
+-/
+
+/-- `VMNetwork.integrate_node` of avocado_i2n/vmnet/network.py, cut by harness/pygen_pxnet.py: the `else` of the inner loop (no registered netconfig takes the interface) -/
+def genIntegrateNew (i : Nat) : NetM (Unit) := do
+  let n ← newNetconfig
+  fromInterfaceM n i
+  genAddInterface n i
+  registerNc n
+  return ()
+
+/- the Python it was generated from (comments and docstring dropped):
+   def integrate_node_new():
+       netconfig = self.new_netconfig()
+       netconfig.from_interface(interface)
+       netconfig.add_interface(interface)
+       self.netconfigs[netconfig.net_ip] = netconfig
+-/
+
+/-- the inner for/break of `integrate_node` (matched structurally): the first registered netconfig, in the order
+of the dictionary, that passes `genIntegrateTest` (the test may raise, which ends the call) -/
+def genFindNc (i : Nat) : List (Nat × Nat) → NetM (Option Nat)
+  | [] => pure none
+  | (_, n) :: rest => do
+    if (← genIntegrateTest n i) then return some n
+    genFindNc i rest
+/-- the body of `for interface in node.interfaces.values():` — the for/else: the found part for the first netconfig
+that passes the test (then `break`), the `else` part when none does -/
+def genPlace (i : Nat) : NetM Unit := do
+  match (← genFindNc i (← registered)) with
+  | some n => genIntegrateFound n i
+  | none => genIntegrateNew i
+def genPlaceAll : List Nat → NetM Unit
+  | [] => pure ()
+  | i :: rest => do
+    genPlace i
+    genPlaceAll rest
+/-- `integrate_node` for a node whose (new, pinned first loop) interface objects are `first … first+count-1`, in
+the order of `node.interfaces.values()` -/
+def genIntegrateNode (first count : Nat) : NetM Unit := genPlaceAll (List.range' first count)
+
 end I2N.Extracted.GenNetwork
